@@ -60,6 +60,7 @@ where
     | ["aux", i] => some (.aux (some (some (toNat i))))
     | "lvl+" :: as => some (.lvlSet (as.map parseLvlArg))
     | "lvl-" :: as => some (.lvlUnset (as.map parseLvlArg))
+    | ["logger", _] => some (.lvlSet [])   -- SetLogger changes the logger only (not in the dump): identity on everything shown
     | _ => none
 
 /-- read the specification state off a starting configuration, by arithmetic on the printed numbers -/
